@@ -1,6 +1,7 @@
 """C05: the VLM solution satisfies flow tangency and matches an independently written reference (specs/vlm.py)."""
 import numpy as np
 from ..runner import job
+from .. import core
 from .. import gsx, term as S, helpers
 from ..specs import vlm
 from .c01_components import cls, two_surfaces, T, MESH_RANGES
@@ -14,19 +15,22 @@ CF = [dict(nx=2, ny=3, symmetry=True, side="left", nsurf=1), dict(nx=3, ny=3, sy
       dict(nx=2, ny=2, symmetry=True, side="right", nsurf=3), dict(nx=3, ny=3, symmetry=True, side="right", nsurf=1, _tier=T)]
 
 
-@job("c05.kernel", ("C05",), ranges=[(r"^(r1|r2|r|u)", -1.5, 1.5)], cost=3)
+@job("c05.kernel", ("C05",), ranges=[(r"^(r1|r2|r|u)", -1.5, 1.5), (r"^scale$", 1e-3, 10.0, "log")], cost=3)
 def kernel(env):
     """the repository's vortex kernels (full real bodies) equal the textbook Biot-Savart formulas (on the branch where the
     kernel's tolerance mask is inactive)"""
     import openaerostruct.aerodynamics.eval_mtx as E
     xp = env.xp
     env.indicator_branch = 1
-    r1 = env.var("r1", (3,))
-    r2 = env.var("r2", (3,))
+    env.indicator_only = core.kernel_tol_mask          # only the documented |den| <= 1e-10 guard of the kernels is exempt
+    # panel sizes from millimetres to tens of metres (den = |r1||r2| + r1.r2 well above the documented 1e-10 guard)
+    sc = env.var("scale", ())
+    r1 = env.var("r1", (3,)) * sc
+    r2 = env.var("r2", (3,)) * sc
     env.eq("C05", "finite vortex segment == Biot-Savart (r1 x r2)/|r1 x r2|^2 (r1-r2).(r1/|r1| - r2/|r2|) / 4pi",
            env.call(E._compute_finite_vortex, r1, r2), vlm.seg_textbook(xp, r1, r2))
     u = env.var("u", (3,))
-    r = env.var("r", (3,))
+    r = env.var("r", (3,)) * sc
     env.eq("C05", "semi-infinite trailing leg == (u x r) / (|r| (|r| - u.r)) / 4pi",
            env.call(E._compute_semi_infinite_vortex, u, r), vlm.semi_textbook(xp, u, r))
 
@@ -100,3 +104,21 @@ def reference(env, rotational, **cfg):
             env.eq("C05", "panel force == rho * horseshoe circulation * (onset + induced velocity at the 1/4-chord point) x bound vector [%s %d]" % (s["name"], q),
                    f[q], F[k])
             k += 1
+
+
+@job("c05.rotational_velocity", ("C05",), cfgs=[dict(nx=2, ny=2, symmetry=True, side="left", nsurf=1), dict(nx=2, ny=2, symmetry=True, side="right", nsurf=2, tail_sym=False)],
+     ranges=RG, cost=3)
+def rotational_velocity(env, **cfg):
+    """the onset velocity due to rigid rotation is omega x (r - cg) at every collocation point - on every branch the
+    component takes on the rates (zero rates included), on a fresh instance and on a live one last run with other rates,
+    another reference point or other points"""
+    from .c16 import runs
+    xp = env.xp
+    surfs = surfaces_for(cfg)
+    fac = lambda: cls("aerodynamics.rotational_velocity.RotationalVelocity")(surfaces=surfs)
+    h = env.comp("rv", fac)
+    ins = h.inputs()
+    om_, cg, pts = np.asarray(ins["omega"]).reshape(3), np.asarray(ins["cg"]).reshape(3), np.asarray(ins["coll_pts"])
+    want = xp.cross(om_ + 0 * pts, pts - cg)                  # rigid-body velocity field omega x (r - cg)
+    for lab, o in runs(env, "rv", fac, ins):
+        env.eq("C05", "rotational velocity == omega x (r - cg) at the collocation points" + lab, o["rotational_velocities"], want)
